@@ -83,6 +83,13 @@ Theorem C18_read_only_value_is_default :
 Proof. exact read_only_value_is_default. Qed.
 Print Assumptions C18_read_only_value_is_default.
 
+(* parameters are named by identity (creation stamp) above; in every
+   reachable tree identities are pairwise distinct, so the name is unambiguous *)
+Theorem C18_identities_unique :
+  forall ops, NoDup (map pid (nodes (st_root (run repaired init ops)))).
+Proof. exact ids_unique. Qed.
+Print Assumptions C18_identities_unique.
+
 (* general form, from any state *)
 Theorem C18_leaf_history :
   forall ops st h ro c d v',
